@@ -184,6 +184,17 @@ carquet_status_t carquet_read_dictionary_page(
             break;
     }
 
+    /* The declared entry count must fit in the page: a BYTE_ARRAY entry takes at
+     * least its 4-byte length prefix, a fixed-width entry takes value_size bytes */
+    if (header->num_values < 0 ||
+        (reader->type == CARQUET_PHYSICAL_BYTE_ARRAY &&
+         (size_t)header->num_values > page_size / 4) ||
+        (reader->type != CARQUET_PHYSICAL_BYTE_ARRAY && value_size != 0 &&
+         (size_t)header->num_values > page_size / value_size)) {
+        CARQUET_SET_ERROR(error, CARQUET_ERROR_DECODE, "Dictionary page too small for its entry count");
+        return CARQUET_ERROR_DECODE;
+    }
+
     reader->dictionary_count = header->num_values;
 
     if (reader->type == CARQUET_PHYSICAL_BYTE_ARRAY) {
